@@ -463,7 +463,7 @@ func run(r *core.Run) {
 	r.Assume("value comparison renders function values as #<fun> and stderr lines that print a function as #<line-with-fun>: a printed function shows parameter and local names, which minification changes by design")
 	r.Assume("errors are compared by condition name, never by message (messages quote symbol names)")
 	r.Assume("symbol arguments of set/export/in-package/use-package use the ' shorthand; the long (quote x) spelling is outside the grammar (lang.md does not state the equivalence; the minifier's prescan does not recognise it)")
-	r.Assume("macros are hygienic for the session: template binders use the reserved name t, a defmacro whose template mentions a global is not called where that name is locally bound, and templates never mention a use-site local (macrolet templates may mention a local of the scope that ENCLOSES the macrolet)")
+	r.Assume("macros are hygienic for the session: template binders use the reserved name t, a defmacro whose template mentions a global is not called where that name is locally bound, and templates never mention a use-site local as CODE (a template may mention the name of the macro parameter, or of a local of the macro body, as quoted DATA: symbol, list, bracket list: 'quoted data keep working') (macrolet templates may mention a local of the scope that ENCLOSES the macrolet)")
 	r.Assume("a package never defines a name that it also imports with use-package (which binding a reference reaches would depend on evaluation order); a let binding value may only mention names of the enclosing scope, as lang.md specifies (the evaluator additionally lets a closure created there see the let's own bindings: class *let-value-closure*)")
 	r.Assume("host probes: after the session, pkg:name of every exported+defined name and every top-level set name (default naming options) and of every global definition of an excluded name must evaluate as in the original; a difference there is classed surface:*")
 	r.Assume("each file of a session starts in package user (the generator closes an open (in-package 'q) before a file break), matching the minifier's per-file assumption")
